@@ -162,7 +162,8 @@ def run(args):
     for pi, (label, src) in enumerate(srcs):
         for b in ("vm", "tree"):
             for li, lim in enumerate(limits if b == "vm" else [None]):
-                a = {"modules": {"main": src}, "entry": "main", "backend": b, "timeout_ms": 6000}
+                # (programs which only the deadline ends get a short one: they spin on every core for all of it)
+                a = {"modules": {"main": src}, "entry": "main", "backend": b, "timeout_ms": 1200 if "never ends" in label or "joins itself" in label else 6000}
                 if lim:
                     a["limits"] = lim
                 if b == "tree":
